@@ -74,9 +74,9 @@ class Check(FormulaCheck):
         q = tier == 'quick'
         specs = [{'campaign': 'sentinels'}]
         for i in range(16):
-            specs.append({'campaign': 'functions', 'seed': seed, 'n': 100 if q else 4000, 'i': i})
-            specs.append({'campaign': 'identities', 'seed': seed, 'n': 250 if q else 12000, 'i': i})
-            specs.append({'campaign': 'pv', 'seed': seed, 'n': 500 if q else 25000, 'i': i})
+            specs.append({'campaign': 'functions', 'seed': seed, 'n': 220 if q else 4000, 'i': i})
+            specs.append({'campaign': 'identities', 'seed': seed, 'n': 700 if q else 12000, 'i': i})
+            specs.append({'campaign': 'pv', 'seed': seed, 'n': 1500 if q else 25000, 'i': i})
         specs.append({'campaign': 'random', 'seed': seed, 'n': 10000 if q else 200000})
         return specs
 
